@@ -152,8 +152,8 @@ fn seeds(ep: &str) -> Vec<Vec<u8>> {
     match ep {
         "id_user" => s(&["@alice:example.org", "@a=b/c+d:[::1]:8448", "@x:1.2.3.4:80"]),
         "id_room" => s(&["!abc:example.org", "!abcdefghijklmnopqrstuvwxyzABCDEFGHIJKLMNOPQ"]),
-        "id_alias" | "id_room_or_alias" => s(&["#room:example.org", "!id:example.org:8448"]),
-        "id_event" => s(&["$abc:example.org", "$Rqnc-F-dvnEYJTyHq_iKxU2bZ1CI92-kuZq3a5lr5Zg"]),
+        "id_alias" | "id_room_or_alias" => s(&["#room:example.org", "!id:example.org:8448", "#r:[2001:db8::1]"]),
+        "id_event" => s(&["$abc:example.org", "$Rqnc-F-dvnEYJTyHq_iKxU2bZ1CI92-kuZq3a5lr5Zg", "$e:[::1]:8448"]),
         "id_server" => {
             let mut v = s(&["example.org", "[2001:db8::1]:8448", "1.2.3.4:65535"]);
             for n in [255usize, 256, 65_535] {
@@ -265,7 +265,7 @@ fn seeds(ep: &str) -> Vec<Vec<u8>> {
 // ---------------------------------------------------------------------------------------------
 // mutations
 
-const DICT: &[&[u8]] = &[b"\"", b"\\", b"{", b"}", b"[", b"]", b":", b",", b"\0", b"\xff", b"\xc3", b"%", b"%41", b"/", b"?", b"#", b"=", b"&", b"@", b"!", b"$", b"<", b">", b"</", b"*", b"\\u0000", b"\\ud800", b"1e999", b"-0", b"9007199254740993", b"null", b";", b"filename*=", b"''", b"\r\n", b" ", b"\xa1\x23\x03\x21"];
+const DICT: &[&[u8]] = &[b"\"", b"\\", b"{", b"}", b"[", b"]", b":", b",", b"\0", b"\xff", b"\xc3", b"%", b"%41", b"/", b"?", b"#", b"=", b"&", b"@", b"!", b"$", b"<", b">", b"</", b"*", b"\\u0000", b"\\ud800", b"1e999", b"-0", b"9007199254740993", b"null", b";", b"filename*=", b"''", b"\r\n", b" ", b"\xa1\x23\x03\x21", b"\xc3\xa9", b"\xf0\x9f\x98\x80", b"\xe2\x80\x94"];
 
 fn boundary_string(sel: u16) -> String {
     let lens = [0usize, 1, 254, 255, 256, 257, 258, 510, 511, 512, 513, 514, 1024, 65536];
@@ -287,7 +287,10 @@ fn mutate_bytes(seed: &[u8], other: &[u8], ops: &[(u8, u16, u16)]) -> Vec<u8> {
                 b.remove(pick_idx(*x, n));
             }
             2 => {
-                let i = pick_idx(*x, n + 1);
+                // insert a dictionary token: anywhere, or (every other time) right after a
+                // punctuation byte, where the parsers switch from one part of the grammar to the next
+                let after_punct: Vec<usize> = (1..=n).filter(|i| b[i - 1].is_ascii_punctuation()).collect();
+                let i = if *y % 2 == 1 && !after_punct.is_empty() { after_punct[pick_idx(*x, after_punct.len())] } else { pick_idx(*x, n + 1) };
                 let d = DICT[pick_idx(*y, DICT.len())];
                 b.splice(i..i, d.iter().copied());
             }
@@ -462,6 +465,21 @@ fn html_nested(kind: u8, depth: usize, unclosed: bool) -> String {
         s.push_str(&format!("</{tag}>").repeat(depth));
     }
     s
+}
+
+fn token_insertion_space() -> impl Iterator<Item = WireCase> {
+    entry::ENTRY_POINTS.iter().filter(|ep| ep.starts_with("id_") || ep.starts_with("uri_") || ep.starts_with("hdr_") || **ep == "sig_base64").flat_map(|ep| {
+        seeds(ep).into_iter().filter(|s| s.len() <= 96).flat_map(move |seed| {
+            (0..=seed.len()).flat_map(move |pos| {
+                let seed = seed.clone();
+                DICT.iter().map(move |tok| {
+                    let mut b = seed.clone();
+                    b.splice(pos..pos, tok.iter().copied());
+                    WireCase::new(ep, b)
+                })
+            })
+        })
+    })
 }
 
 fn is_json_ep(ep: &str) -> bool {
@@ -871,12 +889,15 @@ fn main() {
     ck.rule(
         "46 entry points (identifier parsers and accessors, Matrix URIs, typed event / Raw / ruleset / condition / canonical JSON deserialisation, request and response conversion from HTTP, Content-Disposition / X-Matrix / Retry-After headers, push evaluation and flattening, verify_json / verify_event / sign_json / hash_and_sign_event / hashes / redaction on hostile signed objects, PKCS#8 documents, base64, auth_check on arbitrary contents, HTML parse / sanitize / serialise / drop), each with repository-derived valid seeds. \
          G1: 1-3 byte-level mutations (bit flips, deletions, dictionary insertions, truncation, duplication, splices, boundary-length runs of 254..258 / 510..514 / 65,536 bytes, invalid UTF-8) and 1-3 structure-level mutations (delete / duplicate / swap a field, type swap, boundary-length strings, hostile identifiers, numeric extremes, JSON nesting up to 1,000 levels, HTML nesting up to 21,845 levels), fed in long sequences to the same supervised worker process whose calls run on a 2 MiB stack. \
-         Oracle: every call returns (no panic report, no abnormal process exit, no watchdog silence confirmed by three fresh 15 s runs), and every 250 calls the valid seeds of the entry point are re-evaluated in the same process and must give byte-identical results. Non-trivial = input that got past the entry point's first syntactic gate.",
+         G2 (exhaustive): every dictionary token inserted at every position of every textual seed of at most 96 bytes (identifiers, URIs, header values). Oracle: every call returns (no panic report, no abnormal process exit, no watchdog silence confirmed by three fresh 15 s runs), and every 250 calls the valid seeds of the entry point are re-evaluated in the same process and must give byte-identical results. Non-trivial = input that got past the entry point's first syntactic gate.",
     );
     ck.assume("input size <= 64 KiB (one PDU) except the explicit 65,536-byte boundary strings; JSON nesting <= 1,024; HTML nesting <= 21,845 = floor(65,535/3); 2 MiB thread stack");
     ck.assume("a watchdog hit is re-run in up to three fresh processes (15 s each, 60 s for inputs above 64 KiB): an answer from one of them is judged like any other answer, three silences are a violation");
     let n = ck.n(120_000, 6_000_000);
     ck.prop("mutated_seeds", n, case_strategy, oracle);
+    // systematic layer under the random one: every dictionary token inserted at every position
+    // of every short textual seed (identifiers, URIs, header values, event types)
+    ck.exhaustive("single_token_insertions", true, |s, n| token_insertion_space().skip(s as usize).step_by(n as usize), oracle);
     for e in INFRA.lock().unwrap().drain(..) {
         ck.infra_error(e);
     }
